@@ -170,6 +170,10 @@ func c18(c *Ctx) {
 			}
 			path, outDir := outPath(c, "c18")
 			defer os.RemoveAll(outDir)
+			// merge output buffer: with the default of 1 MiB nothing reaches the file before
+			// the merge ends; small buffers make a cancelled merge leave flushed data behind it
+			zx.SetMergeBuffer([]int{1 << 20, 64, 4096, 1, 1 << 20, 512}[i%6])
+			defer zx.SetMergeBuffer(1 << 20)
 			bm := zx.Drops(p.drops, nil)
 			// uncancelled run: W callbacks
 			probe := &cancelAt{k: -1, ch: make(chan struct{})}
